@@ -1396,6 +1396,9 @@ class Engine:
             return truth(args[0])
         if name == 'tuple' and len(args) == 1 and isinstance(args[0], (SymList, tuple)):
             return tuple(args[0].items) if isinstance(args[0], SymList) else args[0]
+        if name == 'list' and len(args) == 1 and isinstance(args[0], SymMem):
+            # a copy of an array-modelled list: same contents, later stores go to the copy
+            return args[0]
         if name in ('list', 'bytearray') and len(args) == 1 and isinstance(args[0], (SymList, tuple)):
             return SymList(args[0].items if isinstance(args[0], SymList) else args[0])
         if name == 'range' and self.unknown_ok:
